@@ -15,6 +15,8 @@ type c05Case struct {
 	Ref  string `json:"ref"`
 	Root string `json:"root"` // typed | value | generic | nil (location only)
 	Kind string `json:"kind"` // kind of the designated node (or "dangling-document" / "dangling-pointer")
+	Base string `json:"base,omitempty"` // root location when it is not the usual one (dangling root locations)
+	Cont bool   `json:"cont,omitempty"` // ContinueOnError set in the options
 }
 
 var c05Names = []string{"a", "a b", "a/b", "a~b", "a%b", "a#b", "a?b", "{x}", "é", `a"b`, "Item", "item", "200", "", "x-a", "$ref"}
@@ -193,14 +195,26 @@ func c05Exec(c *Ctx, cs c05Case) (outcome string) {
 		outcome = class
 	}
 	outcome = "ok"
+	if cs.Base != "" {
+		rootURL = cs.Base
+		ec = &expCase{built: built{Docs: c05Raw, Root: rootURL}}
+	}
 	// what the reference designates, by the reference model
 	loc, want, rerr := c05Universe.Resolve(rootURL, cs.Ref)
 	rootBefore, ok := c05Pristine[cs.Root]
-	if !ok {
+	if !ok && cs.Base == "" {
 		rootBefore = rootJSON(suppliedRoot(ec, cs.Root))
 		c05Pristine[cs.Root] = rootBefore
 	}
-	r := doCall(ec, call{Fn: cs.Fn, Elem: cs.Ref, Root: cs.Root}, nil, 0)
+	r := doCall(ec, call{Fn: cs.Fn, Elem: cs.Ref, Root: cs.Root, Opts: expOpts{Cont: cs.Cont}}, nil, 0)
+	expGuard.warm()
+	if ch := expGuard.changed(); ch != "" && !expGuard.reported {
+		expGuard.reported = true
+		viol("package-state-changed", "", "", "a resolution left package-level state behind: "+ch)
+	}
+	if cs.Base != "" {
+		rootBefore = r.RootAfter
+	}
 	if r.RootAfter != rootBefore {
 		delete(c05Shared, cs.Root) // decode a fresh root for the next call
 	}
@@ -307,6 +321,32 @@ func c05Run(c *Ctx) {
 					for _, rm := range rootModes {
 						run(c05Case{Fn: fnFor[nd.kind], Ref: spell(rootURL, du, fragFor(bad, esc), spShort), Root: rm, Kind: "dangling-pointer"})
 					}
+				}
+			}
+		}
+	}
+	// dangling root locations (root supplied by location only) and ContinueOnError on dangling references
+	if c.Shard == 0 {
+		for _, base := range []string{"file:///r/s/missing-root.json", "http://h/x/missing-root.json"} {
+			for _, ref := range []string{"#", "", "#/definitions/a", "sib.json#/definitions/a"} {
+				for fn := range map[string]bool{"ResolveRefWithBase": true, "ResolveParameterWithBase": true, "ResolveResponseWithBase": true, "ResolvePathItemWithBase": true, "ResolveItemsWithBase": true} {
+					if ref == "sib.json#/definitions/a" && fn != "ResolveRefWithBase" {
+						continue
+					}
+					for _, cont := range []bool{false, true} {
+						kind := "dangling-root-location"
+						if ref == "sib.json#/definitions/a" {
+							kind = "schema"
+						}
+						run(c05Case{Fn: fn, Ref: ref, Root: "nil", Kind: kind, Base: base, Cont: cont})
+					}
+				}
+			}
+		}
+		for _, ref := range []string{"#/definitions/Missing", "missing.json#/definitions/a", "sib.json#/definitions/a/nope", "../missing.json"} {
+			for fn := range map[string]bool{"ResolveRefWithBase": true, "ResolveParameterWithBase": true, "ResolveResponseWithBase": true, "ResolvePathItemWithBase": true, "ResolveItemsWithBase": true} {
+				for _, rm := range rootModes {
+					run(c05Case{Fn: fn, Ref: ref, Root: rm, Kind: "dangling-with-continue", Cont: true})
 				}
 			}
 		}
